@@ -21,6 +21,7 @@
 #include <openssl/evp.h>
 #include <sys/socket.h>
 #include <unistd.h>
+#include <sys/wait.h>
 #include <thread>
 #include <atomic>
 #include <cstring>
@@ -387,12 +388,40 @@ VOP(js_deep)
 			res = "err";
 		}
 	};
-	if (a.str("mode", "plain") == "co") {
-		boost::asio::io_context io;
-		IoEngine::SpawnCoroutine(io, [&](boost::asio::yield_context) { run(); });
-		io.run();
+	auto runMode = [&]() {
+		if (a.str("mode", "plain") == "co") {
+			boost::asio::io_context io;
+			IoEngine::SpawnCoroutine(io, [&](boost::asio::yield_context) { run(); });
+			io.run();
+		} else {
+			run();
+		}
+	};
+	if (n <= 64) {
+		runMode();
 	} else {
-		run();
+		// beyond the depth the property demands, a stack overflow is possible (F-C20-a); an overflow of a malloc'ed
+		// coroutine stack corrupts the heap before it kills the process, so the attempt runs in a forked child
+		int pfd[2];
+		if (pipe(pfd) != 0) throw std::runtime_error("pipe");
+		pid_t pid = fork();
+		if (pid == 0) {
+			::close(pfd[0]);
+			alarm(60);
+			runMode();
+			(void)!write(pfd[1], res.data(), res.size());
+			_exit(0);
+		}
+		::close(pfd[1]);
+		char buf[128];
+		ssize_t k;
+		std::string got;
+		while ((k = read(pfd[0], buf, sizeof buf)) > 0) got.append(buf, k);
+		::close(pfd[0]);
+		int status = 0;
+		waitpid(pid, &status, 0);
+		if (WIFEXITED(status) && WEXITSTATUS(status) == 0 && !got.empty()) res = got;
+		else res = "crash status=" + std::to_string(WIFSIGNALED(status) ? WTERMSIG(status) : -WEXITSTATUS(status));
 	}
 	Out("js_deep n=" + std::to_string(n) + " " + res);
 }
